@@ -161,6 +161,12 @@ def check(model, rep):
     for t in REQUIRED:
         if t[0] in kinds and t[2] in kinds:
             rep.decide(t in accepted, 'C06.required', ' '.join(t), 'listed operation is not accepted')
+    # conversions the operators rely on (other.to(self.unit), self.to('Nm'), private copies of sub-kinds):
+    # the SI magnitude of an operation is right "whatever units the operands use" only if these hold too
+    from checks.c05 import check_tables, check_to, check_mirror
+    check_tables(model, rep, sx.tables, R='C06.conv.table')
+    check_to(model, rep, sx, sx.tables, R='C06.conv.to')
+    check_mirror(model, rep, sx, R='C06.conv.mirror')
     rep.require('C06.kind', 700, 'one instance per triple')
     rep.exhaustive = True
     rep.analysed.update({'kinds': kinds, 'triples': triples, 'accepted': len(accepted), 'rejected': rejected,
